@@ -1540,6 +1540,11 @@ vx_add_counts(long states, long transitions, long traces)
 	G.traces += traces;
 }
 void
+vx_set_exhaustive(int yes)
+{
+	G.exhaustive = yes;
+}
+void
 vx_add_fault_counts(long evaluations, long nontrivial)
 {
 	G.fevals += evaluations;
